@@ -22,7 +22,7 @@ func init() {
 			"(e) every send on runCh/cancelCh happens with stateLock held after reading finalised == false in the same critical section, every close with stateLock held after finalised is set; " +
 			"(f) in runJob a nil return implies that active was set and the run signal was sent, and no return leaves active set without the signal having been sent; " +
 			"(g) lock pairing in the package; (h) on every exit path of a closure the job is finalised exactly once and its name is removed exactly once counting the claimer (CancelJob/RunJob remove it themselves, so the cancel/run arms must not). " +
-			"NOT decided: the interleavings (two RunJobs at once, cancel versus timer at the same instant), timing, liveness of time.After.",
+			"Added with the fourth seeding round: (k) the loops of CancelJobs are only left by exhaustion. NOT decided: the interleavings (two RunJobs at once, cancel versus timer at the same instant), timing, liveness of time.After.",
 		Technique: "SSA select-arm analysis with min/max path counting of job invocations, finalisations and name removals; lock-set dataflow for the send/close discipline; guard/edge-deletion queries; who-may-call on the job function value",
 		Rule:      "one obligation per select arm and quantity (b,c,h), per send/close site (e), per return of runJob (f), per claimer (d), per function with lock operations (g)",
 	})
